@@ -900,8 +900,27 @@ func (g *cGen) stmt() *cStmt {
 		if g.r.Chance(1, 3) {
 			ty = KBool
 		}
-		// `var x T = e` may shadow an outer x as long as x does not occur in e (`var x T = …x…` is the known
-		// finding var-decl-shadow-self; the Lean theorems carve out exactly `mentions x e`)
+		// `var x T = e` may shadow an outer x, also one that occurs in e: the initialiser reads the OUTER x (the scope
+		// of the new x begins after the ValueSpec; formerly the known finding var-decl-shadow-self)
+		if g.depth > 1 && g.r.Chance(1, 4) {
+			cur := map[string]bool{}
+			for _, v := range g.scopes[len(g.scopes)-1] {
+				cur[v.name] = true
+			}
+			var cs []*cVar
+			for _, v := range g.vars(KInt, false) {
+				if !cur[v.name] && v.name != "d" {
+					cs = append(cs, v)
+				}
+			}
+			if len(cs) > 0 {
+				v := cs[g.r.Intn(len(cs))]
+				g.f("stmt:var-init-self")
+				s := &cStmt{k: "var", ty: KInt, x: v.name, e: mkBin("add", g.useVar(v), g.genInt(1), KInt)}
+				g.decl(&cVar{name: v.name, ty: KInt})
+				return s
+			}
+		}
 		s := &cStmt{k: "var", ty: ty}
 		if g.r.Bool() {
 			s.e = g.genExpr(ty, 2)
@@ -911,10 +930,10 @@ func (g *cGen) stmt() *cStmt {
 		}
 		name := g.newName(ty)
 		if s.e != nil && s.e.mentions(name) {
-			name = g.fresh()
+			g.f("stmt:var-init-self")
 		}
 		if s.e != nil && !g.visible(name) && g.r.Chance(1, 2) {
-			// shadow a variable of an enclosing scope (of any type) that the initialiser does not read
+			// shadow a variable of an enclosing scope (of any type), read by the initialiser or not
 			cur := map[string]bool{}
 			for _, v := range g.scopes[len(g.scopes)-1] {
 				cur[v.name] = true
@@ -927,7 +946,7 @@ func (g *cGen) stmt() *cStmt {
 			var cs []string
 			for _, sc := range g.scopes[:len(g.scopes)-1] {
 				for _, v := range sc {
-					if !cur[v.name] && v.name != "d" && !s.e.mentions(v.name) {
+					if !cur[v.name] && v.name != "d" {
 						cs = append(cs, v.name)
 					}
 				}
@@ -1405,6 +1424,16 @@ func genCoreProgram(r *prng.R, k int, ntuples int) *Prog {
 	kinds := []Kind{KInt, KInt, KInt, KBool}
 	for i := 0; i < nh; i++ {
 		f := &cFunc{name: fmt.Sprintf("¶_h%d", i)}
+		if r.Chance(1, 8) {
+			// an empty function without arguments: its code is a lone RET (INITSLOT 0,0 is removed); it is called
+			// (forced call below) and listed in the debug info (formerly the known finding debug-single-instr-method)
+			f.ret = KVoid
+			f.body = seq(nil)
+			g.f("prog:empty-func")
+			g.funcs = append(g.funcs, f)
+			cp.funcs = append(cp.funcs, f)
+			continue
+		}
 		np := r.Intn(4)
 		for j := 0; j < np; j++ {
 			f.params = append(f.params, fmt.Sprintf("a%d", j))
